@@ -100,12 +100,27 @@ def _maker(case0, case, geom, il, mat, numpy):
 
 
 def xml_source(i, n, nc, raw=None, names=None):
-    data = src_data(i, n, nc) if raw is None else raw
     names = COMPS[nc] if names is None else names
+    if raw is None and list(names) == ['S', 'T', 'P'] and nc == 2:
+        data = [val(i, r, c) for r in range(n) for c in range(3)]      # the loader keeps columns 0 and 1
+    else:
+        data = src_data(i, n, nc) if raw is None else raw
     params = ''.join(('<param name="%s" type="float"/>' % c) if c else '<param type="float"/>' for c in names)
     return ('<source id="s%d"><float_array id="s%d-array" count="%d">%s</float_array><technique_common>'
             '<accessor source="#s%d-array" count="%d" stride="%d">%s</accessor></technique_common></source>'
-            % (i, i, len(data), ' '.join(str(x) for x in data), i, n, nc, params))
+            % (i, i, len(data), ' '.join(str(x) for x in data), i, n, len(names), params))
+
+
+def form_names(form, nc):
+    if form == 'uv':
+        return ['U', 'V']
+    if form == 'stp':
+        return ['S', 'T', 'P']
+    if form == 'unnamed':
+        return [None] * nc
+    if form == 'partial':
+        return [None] + list(COMPS[nc][1:])
+    return list(COMPS[nc])
 
 
 def xml_doc(case):
@@ -114,7 +129,8 @@ def xml_doc(case):
              '<library_geometries><geometry id="g0" name="g0"><mesh>' % NS]
     if case['kind'] == 'source':
         n, nc = case['n'], case['ncomp']
-        parts.append(xml_source(0, n // max(nc, 1), nc, raw=list(range(1, n + 1))))
+        parts.append(xml_source(0, n // max(nc, 1), nc, raw=list(range(1, n + 1)),
+                                names=form_names(case.get('form', 'std'), nc)))
         parts.append('<vertices id="verts"><input semantic="POSITION" source="#s0"/></vertices>')
     else:
         pn = case.get('pnames') or {}
@@ -203,11 +219,17 @@ def exposed_of(kind, eff):
     return out
 
 
+def source_stride(case):
+    # the S,T,P form only exists on the load path (the loader's normalising branch)
+    return 3 if case.get('form') == 'stp' and case['via'] == 'xml' else case['ncomp']
+
+
 def judge(case):
     """Which of the defects listed in the property the input has (empty list: none).
     None when the property makes no demand (unresolved references, no vertex input)."""
     if case['kind'] == 'source':
-        return ['stride'] if case['ncomp'] > 0 and case['n'] % case['ncomp'] != 0 else []
+        stride = source_stride(case)
+        return ['stride'] if stride > 0 and case['n'] % stride != 0 else []
     eff = effective_inputs(case)
     if eff is None or not any(s == 'VERTEX' for _, s, _ in eff):
         return None
@@ -300,10 +322,15 @@ def run_case(case):
     bad = judge(case)
     if case['kind'] == 'source':
         from collada import source
+        acc = None
         try:
             if case['via'] == 'xml':
                 import collada
-                collada.Collada(io.BytesIO(xml_doc(case)))
+                doc = collada.Collada(io.BytesIO(xml_doc(case)))
+                src = doc.geometries[0].sourceById['s0']
+                d = numpy.asarray(src.data)
+                acc = [int(len(src)), int(d.shape[1]) if d.ndim == 2 else 0,
+                       [[int(x) if float(x).is_integer() else 999999937 for x in row] for row in d.tolist()]]
             else:
                 source.FloatSource('s0', numpy.arange(case['n'], dtype=numpy.float32), COMPS[case['ncomp']])
             exc = None
@@ -311,10 +338,13 @@ def run_case(case):
             exc = e
         fails = []
         if bad and not isinstance(exc, cc.DaeMalformedError):
-            fails.append({'clause': 'not-rejected', 'defect': 'stride', 'site': 'source',
+            fails.append({'clause': 'not-rejected', 'defect': 'stride', 'site': 'source-' + case.get('form', 'std'),
                           'got': 'accepted' if exc is None else type(exc).__name__,
-                          'detail': 'source with %d values and %d components: %r' % (case['n'], case['ncomp'], exc)})
-        return {'code': 0 if exc is None else exc_code(exc), 'acc': None, 'fails': fails, 'bad': bad}
+                          'detail': 'source with %d values, %d params (%s): %r' % (case['n'], case['ncomp'], case.get('form', 'std'), exc)})
+        if acc is not None and acc[0] * source_stride(case) != case['n']:
+            fails.append({'clause': 'shape', 'defect': 'source-length', 'site': 'source-' + case.get('form', 'std'), 'got': 'accepted',
+                          'detail': 'loaded source has %d elements for %d values of stride %d' % (acc[0], case['n'], source_stride(case))})
+        return {'code': 0 if exc is None else exc_code(exc), 'acc': acc, 'fails': fails, 'bad': bad}
     p, exc = construct(case)
     kind = case['kind']
     fails = []
